@@ -4,9 +4,9 @@ import "encoding/binary"
 
 // ASHop is one AS of a segment, in construction order.
 type ASHop struct {
-	Key     []byte
-	In, Eg  uint16 // ConsIngress / ConsEgress of the regular hop entry
-	Exp     uint8
+	Key    []byte
+	In, Eg uint16 // ConsIngress / ConsEgress of the regular hop entry
+	Exp    uint8
 }
 
 // Chain is a path segment in construction order with its beta chain:
